@@ -115,6 +115,8 @@ func replChurnCmd(args []string) int {
 	logTo := fs.String("log", "", "keep the engines' chatter in this file")
 	paceUs := fs.Int("pace_us", 0, "pause of a writer between two operations (0 = full rate)")
 	head := fs.Bool("head", false, "clients ask for the log from the primary's current position instead of from its beginning")
+	ack := fs.Bool("ack", false, "attach a protocol client that acknowledges what it has received every few ms (drives the primary's retention)")
+	flushMs := fs.Int("flush_ms", 0, "flush the primary (log rotation) every so many ms while the writers run (0 = never)")
 	stacks := fs.String("stacks", "", "write all goroutine stacks to this file when an operation is overdue")
 	fs.Parse(args)
 	stderr := os.Stderr
@@ -237,6 +239,49 @@ func replChurnCmd(args []string) int {
 		wg.Add(1)
 		go runWriter(w, 0)
 	}
+	// rotations and acknowledgements while the writers run
+	var bgStop atomic.Bool
+	var acks, flushes atomic.Int64
+	if *flushMs > 0 {
+		go func() {
+			for !bgStop.Load() {
+				time.Sleep(time.Duration(*flushMs) * time.Millisecond)
+				if prim.eng.FlushImMemTables() == nil {
+					flushes.Add(1)
+				}
+			}
+		}()
+	}
+	if *ack {
+		ac, err := attachAckClient(paddr)
+		if err != nil {
+			return fail("cannot attach the acknowledging client: " + err.Error())
+		}
+		log.ev(map[string]interface{}{"e": "fault", "mode": "ack", "id": "ack-client:1"})
+		go func() {
+			got := uint64(0)
+			for !bgStop.Load() {
+				for drained := false; !drained; {
+					select {
+					case q := <-ac.maxSeq:
+						if q > got {
+							got = q
+						}
+					default:
+						drained = true
+					}
+				}
+				if got > 0 {
+					if ok, _ := ac.acknowledge(got); ok {
+						acks.Add(1)
+					}
+				}
+				time.Sleep(3 * time.Millisecond)
+			}
+			ac.cancel()
+			ac.conn.Close()
+		}()
+	}
 	hung := func() bool {
 		now := time.Now().UnixNano()
 		for w, st := range ws {
@@ -336,6 +381,10 @@ func replChurnCmd(args []string) int {
 		return 0
 	}
 	stop.Store(true)
+	bgStop.Store(true)
+	if *ack || *flushMs > 0 {
+		log.ev(map[string]interface{}{"e": "note", "acknowledgements": acks.Load(), "flushes": flushes.Load()})
+	}
 	wd := make(chan struct{})
 	go func() { wg.Wait(); close(wd) }()
 	for fin := false; !fin; {
